@@ -60,10 +60,13 @@ func (config Config) New(session *packet.Session) (h *Handler, err error) {
 
 // Close the handler and terminate all internal goroutines
 func (h *Handler) Close() error {
+	h.arpMutex.Lock()
 	if h.closed {
+		h.arpMutex.Unlock()
 		return nil
 	}
-	h.closed = true
+	h.closed = true // read by the spoof loops under the same lock
+	h.arpMutex.Unlock()
 	close(h.closeChan) // this will exit all background goroutines
 	return nil
 }
@@ -238,7 +241,10 @@ func (h *Handler) Scan() error {
 			continue
 		}
 
-		if h.closed { // return if Close() is called when we are in the loop
+		h.arpMutex.RLock()
+		closed := h.closed
+		h.arpMutex.RUnlock()
+		if closed { // return if Close() is called when we are in the loop
 			return nil
 		}
 		err := h.Request(ip)
